@@ -24,7 +24,7 @@ def main():
                 if p.returncode != 0:
                     print(m["id"], "edit does not build / pass the suite:", p.stderr[-200:]); bad += 1; continue
                 for prop in m["props"]:
-                    r = subprocess.run(["./check", prop], cwd=V, capture_output=True, text=True, env=dict(os.environ, VERIF_REPO=dst))
+                    r = subprocess.run(["./check", prop], cwd=V, capture_output=True, text=True, env=dict(os.environ, VERIF_REPO=dst, VERIF_EVIDENCE_DIR=os.path.join(scratch, "evidence"), VERIF_REPLAYS_DIR=os.path.join(scratch, "replays")))
                     lines = [l[:160] for l in r.stdout.splitlines() if l.startswith(("VIOLATION", "UNDECIDED", "engine"))]
                     ok = r.returncode == 0
                     if not ok: bad += 1
